@@ -146,6 +146,17 @@ func (p *Peer) Conns() []*peerConn {
 	defer p.mu.Unlock()
 	return append([]*peerConn{}, p.conns...)
 }
+// FirstConn waits for the first accepted connection (the accept goroutine may lag behind the client's Dial)
+func (p *Peer) FirstConn() *peerConn {
+	for i := 0; i < 400; i++ {
+		if c := p.Conns(); len(c) > 0 {
+			return c[0]
+		}
+		time.Sleep(5 * time.Millisecond)
+	}
+	panic("peer: no connection was accepted")
+}
+
 func (p *Peer) Dials() int { return int(atomic.LoadInt32(&p.dials)) }
 func (p *Peer) Open() int  { return int(atomic.LoadInt32(&p.open)) }
 
